@@ -339,9 +339,16 @@ impl Compiler {
             return self.compile_accessor_property(obj, prop);
         }
 
-        // Compile the value for regular properties
+        // Compile the value for regular properties.
+        // Anonymous functions/arrows/classes (incl. method shorthand) take the property
+        // key as their name (`{ m() {} }.m.name === "m"`), which stack traces report too.
         let value_reg = self.builder.alloc_register()?;
-        self.compile_expression(&prop.value, value_reg)?;
+        let inferred_name = match &prop.key {
+            ObjectPropertyKey::Identifier(id) => Some(id.name.cheap_clone()),
+            ObjectPropertyKey::String(s) => Some(s.value.cheap_clone()),
+            _ => None,
+        };
+        self.compile_expression_with_inferred_name(&prop.value, value_reg, inferred_name)?;
 
         // Set the property based on key type
         match &prop.key {
